@@ -229,7 +229,7 @@ func init() {
 	Register(&Engine{
 		ID:       "C02",
 		Anchors:  []string{"node.go:matchChildren", "segment.go:Segment.Match", "node.go:addSegment", "node.go:splitNode", "node.go:buildIndexes", "segment.go:longestPrefix"},
-		Cases:    func(t string) int { return map[string]int{"quick": 4000, "thorough": 120000}[t] },
+		Cases:    func(t string) int { return map[string]int{"quick": 12000, "thorough": 800000}[t] },
 		Run:      runC02,
 		Directed: c02Directed,
 		Rule: "case = add-only table of 2-25 generated patterns (hostile pools, literal fans, three interceptor sets) registered in 3 orders x 40 generated paths; " +
